@@ -107,6 +107,15 @@ Quad(l, a) == T("quad", l, a, 8)
 Str == T("string", "", 0, 3)
 Ascii == T("ascii", "", 0, 2)
 Ascii0 == T("ascii", "", 0, 0)
+\* string directives whose only output is a NUL: .string "" / .asciz "" / .ascii "\0"
+StrEmpty == T("string", "", 0, 1)
+AscizEmpty == T("string", "", 1, 1)
+AsciiNul == T("ascii", "", 1, 1)
+IsNul(t) == (t.k = "string" /\ t.n = 1) \/ (t.k = "ascii" /\ t.n = 1 /\ t.a = 1)
+\* name = value / .set name, value  (a constant assignment defines the name;
+\* values are multiples of 4 so that they are encodable branch offsets everywhere)
+Assign(l, v) == T("assign", l, v, 0)
+DefKinds == {"label", "assign"}
 Zero(n) == T("zero", "", n, n)
 Align(n) == T("align", "", n, 0)
 Uleb(l) == T("uleb", l, 0, 1)
@@ -128,6 +137,13 @@ VocabOf(v) ==
                         Sec("data"), Sec("text")>>
     [] v = "chunk" -> <<Op, Jmp("x"), Label("x"), Byte(1), Ret, Call("a"), Quad("x", 0), Jcc("y"), Label("y")>>
     [] v = "chunk2" -> <<Lea("b", 4), Jmp("x"), Label("x"), Str, Ret, Sec("data"), Align(4), Label("g"), Jmp("g")>>
+    \* strings: when does a stand-alone NUL terminate the previous ASCII block
+    [] v = "str"   -> <<Ret, Op, Ascii, Str, StrEmpty, AscizEmpty, AsciiNul, Ascii0, Byte(1), Quad("a", 0),
+                        Zero(2), Label("x"), Sec("data"), Sec("text"), Align(4)>>
+    [] v = "strc"  -> <<Ret, Op, Ascii, StrEmpty, AsciiNul, Byte(1), Label("x"), Sec("data")>>
+    \* constant assignments against labels and uses, across chunks
+    [] v = "asg"   -> <<Op, Label("x"), Label("g"), Label("a"), Assign("g", 16), Assign("g", 20), Assign("x", 16),
+                        Assign("a", 20), Jmp("g"), Jmp("x")>>
     \* operand forms whose addend / modifier is invisible in the bytes (ARM64, MIPS32),
     \* and transfers whose target has an addend (refused)
     [] v = "ops"   -> <<Op, Label("x"), RefOp("ldlit", "a", 8), RefOp("ldlit", "x", 0), RefOp("pg", "a", 8),
@@ -208,6 +224,9 @@ Idx(V) == DOMAIN V.toks
 Sized(V, i) == V.toks[i].n > 0
 End(V, i) == V.pos[i].o + V.toks[i].n
 LabelIdx(V, l) == {i \in Idx(V) : V.toks[i].k = "label" /\ V.toks[i].l = l}
+\* tokens that define the name l (labels and constant assignments)
+DefIdx(V, l) == {i \in Idx(V) : V.toks[i].k \in DefKinds /\ V.toks[i].l = l}
+AssignIdx(V, l) == {i \in Idx(V) : V.toks[i].k = "assign" /\ V.toks[i].l = l}
 \* kind of the last sized token of section s ending at p / first starting at p
 PrevKind(V, s, p) ==
   LET c == {i \in Idx(V) : V.pos[i].sec = s /\ Sized(V, i) /\ End(V, i) = p}
@@ -334,8 +353,9 @@ C12_Labels(V) ==
   /\ \A i \in Idx(V) : V.toks[i].k = "label" => LabelOK(V, i)
   /\ \A j \in DOMAIN V.R.syms :
         V.R.syms[j].k # "proxy" =>
-           /\ V.R.syms[j].k = "blk"
-           /\ \E i \in Idx(V) : V.toks[i].k = "label" /\ ExpName(V.P, V.toks[i].l) = V.R.syms[j].nm
+           /\ V.R.syms[j].k \in {"blk", "int"}
+           /\ \E i \in Idx(V) : /\ V.toks[i].k = (IF V.R.syms[j].k = "blk" THEN "label" ELSE "assign")
+                                 /\ ExpName(V.P, V.toks[i].l) = V.R.syms[j].nm
 
 \* C12_DataConversion
 HasCfi(V) == V.P.icfi \/ \E i \in Idx(V) : V.toks[i].k \in CfiKinds
@@ -359,6 +379,49 @@ C12_DataConversion(V) ==
             /\ (b.n = 0 => b.code)
             /\ (b.ty # "" => ~b.code)
 
+\* C12_Strings: block kinds around string literals.  Every string literal is a
+\* block of its own (typed ascii, or string when NUL-terminated); a directive
+\* whose only output is a NUL terminates the ASCII literal before it when
+\* nothing was emitted in between in that section (no byte, no instruction, no
+\* label), and is an ASCII literal of its own otherwise.  head[i] = the token
+\* that starts the block of string token i (0 for other tokens).
+StrHeads(V) ==
+  LET f[i \in 0..Len(V.toks)] ==
+        IF i = 0 THEN [open |-> [s \in SecNames |-> 0], head |-> <<>>]
+        ELSE LET p == f[i - 1]
+                 t == V.toks[i]
+                 s == V.pos[i].sec
+             IN  IF t.k \in {"ascii", "string"} /\ t.n > 0
+                 THEN IF IsNul(t) /\ p.open[s] # 0
+                      THEN [open |-> [p.open EXCEPT ![s] = 0], head |-> Append(p.head, p.open[s])]
+                      ELSE [open |-> [p.open EXCEPT ![s] = IF t.k = "ascii" \/ IsNul(t) THEN i ELSE 0],
+                            head |-> Append(p.head, i)]
+                 ELSE IF t.n > 0 \/ t.k = "label"
+                 THEN [open |-> [p.open EXCEPT ![s] = 0], head |-> Append(p.head, 0)]
+                 ELSE [open |-> p.open, head |-> Append(p.head, 0)]
+  IN  f[Len(V.toks)].head
+C12_Strings(V) ==
+  LET hd == StrHeads(V)
+      heads == {i \in Idx(V) : hd[i] = i}
+      members(h) == {i \in Idx(V) : hd[i] = h}
+      size(h) == SumSeq([i \in Idx(V) |-> IF hd[i] = h THEN V.toks[i].n ELSE 0])
+      ty(h) == IF Cardinality(members(h)) > 1 \/ (V.toks[h].k = "string" /\ V.toks[h].n > 1)
+               THEN "string" ELSE "ascii"
+      ulebs == {i \in Idx(V) : V.toks[i].k = "uleb"}
+  IN  /\ \A h \in heads :
+            \E q \in DOMAIN VB(V, V.pos[h].sec) :
+               LET b == VB(V, V.pos[h].sec)[q]
+               IN  b.o = V.pos[h].o /\ b.n = size(h) /\ (~b.code => b.ty = ty(h))
+      /\ \A u \in ulebs :
+            \E q \in DOMAIN VB(V, V.pos[u].sec) :
+               LET b == VB(V, V.pos[u].sec)[q]
+               IN  b.o = V.pos[u].o /\ b.n = 1 /\ ~b.code /\ b.ty = "uleb128"
+      \* nothing else is typed
+      /\ \A q \in DOMAIN V.R.secs : \A j \in DOMAIN V.R.secs[q].blocks :
+            V.R.secs[q].blocks[j].ty # "" =>
+               \E i \in heads \cup ulebs : /\ V.pos[i].sec = V.R.secs[q].name
+                                           /\ V.pos[i].o = V.R.secs[q].blocks[j].o
+
 \* C12_Alignment: a block carries the strictest alignment requested at its
 \* position, and nothing else
 AlignIdx(V, s, p) == {i \in Idx(V) : V.toks[i].k = "align" /\ V.pos[i].sec = s /\ V.pos[i].o = p}
@@ -374,7 +437,7 @@ ExpAttrs(V, t, tgt) ==
   IF V.P.plt /\ t.k \in DirectKinds /\ tgt.k \in {"mod", "symp"} /\ (tgt.k = "symp" \/ t.l = "b")
   THEN <<"PLT">>
   ELSE IF t.k \in RefOpKinds THEN AttrsOf(V.P.isa, t.k) ELSE <<>>
-ExpNameOrRaw(V, l) == IF LabelIdx(V, l) # {} THEN ExpName(V.P, l) ELSE V.P.rn[l]
+ExpNameOrRaw(V, l) == IF DefIdx(V, l) # {} THEN ExpName(V.P, l) ELSE V.P.rn[l]
 OperandOK(V, dec, i) ==
   LET t == V.toks[i]
       s == V.pos[i].sec
@@ -393,6 +456,11 @@ OperandOK(V, dec, i) ==
                                       c[1].o = o + dec[i].fo[q] /\ c[1].sz = dec[i].fs[q]
 C12_Operands(V, dec) ==
   /\ \A i \in Idx(V) : Sized(V, i) => OperandOK(V, dec, i)
+  \* an expression never straddles two blocks
+  /\ \A j \in DOMAIN V.R.sx :
+        \E q \in DOMAIN VB(V, V.R.sx[j].sec) :
+           LET b == VB(V, V.R.sx[j].sec)[q]
+           IN  b.o <= V.R.sx[j].o /\ V.R.sx[j].o + V.R.sx[j].sz <= b.o + b.n
   /\ \A j \in DOMAIN V.R.sx :
         \E i \in Idx(V) : /\ HasRef(V.toks[i]) /\ V.pos[i].sec = V.R.sx[j].sec
                           /\ V.pos[i].o <= V.R.sx[j].o /\ V.R.sx[j].o < End(V, i)
@@ -401,16 +469,16 @@ C12_Operands(V, dec) ==
 \* Refusals (DESIGN appendix B), per chunk visibility of labels:
 \* a reference in chunk c sees the labels of chunks <= c (the pre-pass
 \* creates the labels of a whole chunk before anything is streamed).
-DefinedBy(V, l, c) == \E i \in LabelIdx(V, l) : V.toks[i].vc <= c
+DefinedBy(V, l, c) == \E i \in DefIdx(V, l) : V.toks[i].vc <= c
 RefIdx(V) == {i \in Idx(V) : HasRef(V.toks[i])}
 Unresolved(V, i) == /\ V.toks[i].l \notin V.P.ms /\ ~DefinedBy(V, V.toks[i].l, V.toks[i].vc)
 Conflict(V, i) ==      \* label token i defines an existing name
   LET l == V.toks[i].l
   IN  \/ l \in V.P.ms
-      \/ \E j \in LabelIdx(V, l) : j < i
+      \/ \E j \in DefIdx(V, l) : j < i
       \/ /\ V.P.au
          /\ \E j \in RefIdx(V) : /\ V.toks[j].l = l /\ V.toks[j].vc < V.toks[i].vc /\ Unresolved(V, j)
-HasConflict(V) == \E i \in Idx(V) : V.toks[i].k = "label" /\ Conflict(V, i)
+HasConflict(V) == \E i \in Idx(V) : V.toks[i].k \in DefKinds /\ Conflict(V, i)
 HasUndef(V) == ~V.P.au /\ \E i \in RefIdx(V) : Unresolved(V, i)
 \* CFI directives are well formed when, chunk by chunk, frames are opened,
 \* used and closed in order (with an implicit procedure the frame is open
@@ -429,15 +497,23 @@ CfiWellFormed(V) ==
                    [] OTHER            -> [ok |-> okb, open |-> op0, ch |-> t.vc]
       e == f[Len(V.toks)]
   IN  e.ok /\ (V.P.icfi \/ ~e.open)
+\* a direct transfer to a name that a constant assignment earlier in the same
+\* assembled text defines (LLVM folds it into a constant target)
+FoldedTarget(V) ==
+  \E i \in Idx(V) : /\ V.toks[i].k \in DirectKinds
+                    /\ \E j \in AssignIdx(V, V.toks[i].l) : j < i /\ V.toks[j].vc = V.toks[i].vc
 HasUnsupported(V) ==
   \E i \in Idx(V) : \/ V.toks[i].k = "uleb"
                     \/ V.toks[i].k \in DirectKinds /\ V.toks[i].a # 0
+                    \/ V.toks[i].k \in DirectKinds /\ AssignIdx(V, V.toks[i].l) # {}   \* a constant is no CFG node
                     \/ V.toks[i].k = "cfiend" /\ V.P.icfi
 AllowedRefusals(V) ==
   (IF HasConflict(V) THEN {"MultipleDefinitionsError"} ELSE {})
   \cup (IF HasUndef(V) THEN {"UndefSymbolError"} ELSE {})
   \cup (IF HasUnsupported(V) THEN {"UnsupportedAssemblyError"} ELSE {})
   \cup (IF ~CfiWellFormed(V) THEN {"AsmSyntaxError"} ELSE {})
+  \* a constant transfer target may already be rejected by the parser
+  \cup (IF FoldedTarget(V) THEN {"AsmSyntaxError"} ELSE {})
 \* Inputs the properties quantify over: a CFI frame is opened, used and closed
 \* inside one section (anything else is not meaningful assembly)
 CfiInOneSection(V) ==
@@ -447,6 +523,8 @@ CfiInOneSection(V) ==
          ELSE V.pos[Max(st0)].sec = V.pos[i].sec
 InDomain(V) == CfiInOneSection(V)
 Completes(V) == V.exc = "" \/ V.exc \in AllowedRefusals(V)
+\* OPEN finding KF-C12-4 (the model mirrors it): AssertionError for such a transfer on ARM64 / MIPS32
+OpenDefect(V) == V.exc = "AssertionError" /\ V.P.isa \in {"arm64", "mips32"} /\ FoldedTarget(V)
 \* C12_TargetsNoOffset: a call or branch whose target carries an addend is
 \* refused (the CFG cannot express it), never assembled to an edge
 HasTargetOffset(V) == \E i \in Idx(V) : V.toks[i].k \in DirectKinds /\ V.toks[i].a # 0
@@ -474,7 +552,12 @@ C13_Undef(V) ==
 \* C13_TempSuffix: temporary labels carry the caller's suffix, others do not
 C13_TempSuffix(V) ==
   {V.R.syms[j].nm : j \in {q \in DOMAIN V.R.syms : V.R.syms[q].k # "proxy"}}
-     = {ExpName(V.P, V.toks[i].l) : i \in {q \in Idx(V) : V.toks[q].k = "label"}}
+     = {ExpName(V.P, V.toks[i].l) : i \in {q \in Idx(V) : V.toks[q].k \in DefKinds}}
+\* C13_Assignments: a constant assignment yields one symbol of that name with that value
+C13_Assignments(V) ==
+  \A i \in Idx(V) : V.toks[i].k = "assign" =>
+     LET c == SelectSeq(V.R.syms, LAMBDA y : y.nm = ExpName(V.P, V.toks[i].l))
+     IN  Len(c) = 1 /\ c[1].k = "int" /\ c[1].o = V.toks[i].a
 \* C13_Binding: a name of the module binds to the module's own object,
 \* any other to a symbol of the result; the result never shadows the module
 C13_Binding(V) ==
@@ -489,7 +572,7 @@ C13_Binding(V) ==
 \* C13_Chunking: chunks without a forward cross-chunk reference and with
 \* balanced CFI frames give the result of the concatenation
 NoForwardRef(V) ==
-  \A i \in RefIdx(V) : \A j \in LabelIdx(V, V.toks[i].l) : V.toks[j].vc <= V.toks[i].vc
+  \A i \in RefIdx(V) : \A j \in DefIdx(V, V.toks[i].l) : V.toks[j].vc <= V.toks[i].vc
 NormR(R) ==
   [secs |-> R.secs, syms |-> Range(R.syms), sx |-> Range(R.sx), nprox |-> R.nprox,
    edges |-> {[s |-> e.s, t |-> NormNode(e.t), ty |-> e.ty, c |-> e.c, d |-> e.d] : e \in Edges(R)}]
@@ -512,7 +595,7 @@ NoProc == [sec |-> 0, imp |-> FALSE, hs |-> FALSE, sb |-> 0, sd |-> 0, he |-> FA
 InitState ==
   [secs |-> <<>>, cur |-> 0, blk |-> <<>>, np |-> 0, edges |-> {}, code |-> {},
    bt |-> {}, al |-> {}, sy |-> [l \in NameU |-> NoSym], sx |-> {}, cfi |-> <<>>,
-   fopen |-> FALSE, data |-> {}, keys |-> {}, err |-> ""]
+   fopen |-> FALSE, data |-> {}, keys |-> {}, asg |-> {}, err |-> ""]
 
 Fail(s, e) == [s EXCEPT !.err = e]
 SecIdx(s, name) == LET c == {i \in DOMAIN s.secs : s.secs[i].name = name}
@@ -548,8 +631,11 @@ PreCreate(s0, P, chunk) ==
         IF i = 0 THEN s0
         ELSE LET s == f[i - 1]
                  t == chunk[i]
-             IN  IF s.err # "" \/ t.k # "label" THEN s
+             IN  IF s.err # "" \/ t.k \notin DefKinds THEN s
                  ELSE IF s.sy[t.l].def \/ t.l \in P.ms THEN Fail(s, "MultipleDefinitionsError")
+                 \* emit_assignment: the symbol's payload is the constant (node id 2000 + value)
+                 ELSE IF t.k = "assign"
+                 THEN [s EXCEPT !.sy[t.l] = [def |-> TRUE, nm |-> ExpName(P, t.l), ref |-> 2000 + t.a, e |-> FALSE]]
                  ELSE [s EXCEPT !.blk = Append(@, [off |-> 0, size |-> 0]),
                                 !.sy[t.l] = [def |-> TRUE, nm |-> ExpName(P, t.l),
                                              ref |-> Len(s.blk) + 1, e |-> FALSE]]
@@ -579,7 +665,17 @@ DoLabel(s, t) ==
                 !.secs[s.cur].blocks = Append(@, lb)]
 
 \* _Streamer.emit_instruction
+FixedWidth == {"arm64", "mips32"}
 DoInsn(s, P, t) ==
+  \* a transfer to a name whose constant value is already known: LLVM emits the
+  \* constant; x86 keeps a fixup with a constant expression (refused), the
+  \* fixed-width ISAs have no fixup at all and `assert len(fixups) == 1` fails
+  \* (open finding KF-C12-4, mirrored)
+  IF t.k \in DirectKinds /\ t.l \in s.asg
+  THEN Fail(s, IF P.isa \in FixedWidth THEN "AssertionError"
+               \* (LLVM's Intel-syntax parser rejects the constant target itself)
+               ELSE IF P.syn = "intel" THEN "AsmSyntaxError" ELSE "UnsupportedAssemblyError")
+  ELSE
   LET hasref == t.k \in DirectKinds \cup RefOpKinds
       r == IF hasref THEN Resolve(s, P, t.l) ELSE [st |-> s, err |-> "", ref |-> 0, nm |-> ""]
   IN  IF r.err # "" THEN Fail(s, r.err)
@@ -600,7 +696,7 @@ DoInsn(s, P, t) ==
             [] t.k = "icall" ->
                  Split([s2 EXCEPT !.np = @ + 1, !.edges = @ \cup {E(c, pid, "call", FALSE, FALSE)}], TRUE)
             [] t.k \in DirectKinds ->
-                 IF t.a # 0 THEN Fail(s2, "UnsupportedAssemblyError")
+                 IF t.a # 0 \/ r.ref >= 2000 THEN Fail(s2, "UnsupportedAssemblyError")
                  ELSE Split([s2 EXCEPT !.edges = @ \cup
                                 {E(c, r.ref, IF t.k = "call" THEN "call" ELSE "branch", t.k = "jcc", TRUE)}],
                             t.k \in {"call", "jcc"})
@@ -631,8 +727,14 @@ Terminate(s) ==
                  !.secs[s.cur].blocks = Append(@, cb)]
 \* emit_bytes: an empty literal emits nothing (no block, no encoding); the
 \* NUL of an empty .string is then an ordinary one-byte literal
-DoAscii(s, t) == IF t.n = 0 THEN s ELSE Encoded(s, t.n, "ascii")
-DoString(s, t) == IF t.n = 1 THEN Encoded(s, 1, "ascii") ELSE Terminate(Encoded(s, t.n - 1, "ascii"))
+\* emit_bytes(NUL): terminate the previous block if the current block is still
+\* empty and the previous block is an ASCII literal; a literal of its own otherwise
+CanTerminate(s) ==
+  LET bs == s.secs[s.cur].blocks
+  IN  s.blk[Last(bs)].size = 0 /\ Len(bs) >= 2 /\ GetF(s.bt, bs[Len(bs) - 1], "") = "ascii"
+NulBytes(s) == IF CanTerminate(s) THEN Terminate(s) ELSE Encoded(s, 1, "ascii")
+DoAscii(s, t) == IF t.n = 0 THEN s ELSE IF IsNul(t) THEN NulBytes(s) ELSE Encoded(s, t.n, "ascii")
+DoString(s, t) == IF t.n = 1 THEN NulBytes(s) ELSE NulBytes(Encoded(s, t.n - 1, "ascii"))
 \* emit_uleb128_value
 DoUleb(s, P, t) ==
   LET s1 == Split(s, FALSE)
@@ -671,8 +773,9 @@ DoCfiDef(s, t) ==
 \* start of the streaming pass of a chunk: init_sections, implicit procedure
 StartChunk(s, P) ==
   LET s1 == ChangeSection(s, "text")
-  IN  IF P.icfi THEN [s1 EXCEPT !.fopen = TRUE, !.cfi = Append(@, [NoProc EXCEPT !.sec = s1.cur, !.imp = TRUE])]
-      ELSE [s1 EXCEPT !.fopen = FALSE]
+  IN  IF P.icfi THEN [s1 EXCEPT !.fopen = TRUE, !.asg = {},
+                                !.cfi = Append(@, [NoProc EXCEPT !.sec = s1.cur, !.imp = TRUE])]
+      ELSE [s1 EXCEPT !.fopen = FALSE, !.asg = {}]
 EndChunk(s, P) ==
   IF s.fopen /\ ~P.icfi THEN Fail(s, "AsmSyntaxError") ELSE [s EXCEPT !.fopen = FALSE]
 
@@ -689,6 +792,9 @@ Step(s, P, t) ==
     [] t.k = "cfistart" -> DoCfiStart(s, P)
     [] t.k = "cfiend" -> DoCfiEnd(s, P)
     [] t.k = "cfidef" -> DoCfiDef(s, t)
+    \* (defined by the pre-pass; the streaming pass lets it through - from here on
+    \*  LLVM knows the value and folds later uses in this text into constants)
+    [] t.k = "assign" -> [s EXCEPT !.asg = @ \cup {t.l}]
 
 ---------------------------------------------------------------------------
 \* Assembler.finalize
@@ -829,6 +935,7 @@ Canon(s, P) ==
       sym(l) ==
         LET y == s.sy[l]
         IN  IF y.ref < 0 THEN [nm |-> y.nm, k |-> "proxy", sec |-> "", o |-> 0, n |-> 0, e |-> FALSE]
+            ELSE IF y.ref >= 2000 THEN [nm |-> y.nm, k |-> "int", sec |-> "", o |-> y.ref - 2000, n |-> 0, e |-> FALSE]
             ELSE IF secOf(y.ref) = {} THEN [nm |-> y.nm, k |-> "stale", sec |-> "", o |-> 0, n |-> 0, e |-> FALSE]
             ELSE [nm |-> y.nm, k |-> "blk", sec |-> s.secs[CHOOSE i \in secOf(y.ref) : TRUE].name,
                   o |-> s.blk[y.ref].off, n |-> s.blk[y.ref].size, e |-> y.e]
@@ -866,8 +973,9 @@ ModelView(toks, P, s) ==
 (***************************************************************************)
 \* (the ISA matters to the model only through the attribute table and the
 \*  MIPS return idiom; the "ops" vocabulary is explored for ARM64 and MIPS32)
-ModelISAs == IF VocabName = "ops" THEN {"arm64", "mips32"} ELSE {"x64"}
-Params == {[tu |-> tu, au |-> au, icfi |-> ic, sfx |-> "_7", ms |-> ms, plt |-> FALSE, isa |-> isa,
+ModelISAs == IF VocabName = "ops" THEN {"arm64", "mips32"}
+             ELSE IF VocabName = "asg" THEN {"x64", "arm64"} ELSE {"x64"}
+Params == {[tu |-> tu, au |-> au, icfi |-> ic, sfx |-> "_7", ms |-> ms, plt |-> FALSE, isa |-> isa, syn |-> "att",
             mips |-> isa = "mips32", rn |-> IdNames] :
               tu \in TUs, au \in AUs, ic \in ICFIs, ms \in MSs, isa \in ModelISAs}
 TotalLen(p) == SumSeq([i \in DOMAIN p |-> Len(p[i])])
@@ -901,6 +1009,7 @@ EmitEncoded == Emitting(EncodedKinds)
 EmitAlignment == Emitting({"align"})
 DoChangeSection == Emitting({"sec"})
 EmitCfi == Emitting(CfiKinds)
+EmitAssignment == Emitting({"assign"})
 ChunkDone ==
   /\ ph = "stream" /\ (inp = <<>> \/ st.err # "")
   /\ st' = IF st.err # "" THEN st ELSE EndChunk(st, par)
@@ -913,7 +1022,7 @@ DoFinalize ==
   /\ UNCHANGED <<par, prog, inp, st>>
 
 Next == \/ Assemble \/ EmitLabel \/ EmitInsnPlain \/ EmitInsnDirect \/ EmitInsnRet \/ EmitInsnIndirect
-        \/ EmitBytes \/ EmitValue \/ EmitEncoded \/ EmitAlignment \/ DoChangeSection \/ EmitCfi
+        \/ EmitBytes \/ EmitValue \/ EmitEncoded \/ EmitAlignment \/ DoChangeSection \/ EmitCfi \/ EmitAssignment
         \/ ChunkDone \/ DoFinalize
 Spec == Init /\ [][Next]_vars
 
@@ -925,7 +1034,7 @@ CaseJson ==
 LevelA(V, dec) ==
   /\ C12_Decode(V, dec) /\ C12_Tiling(V) /\ C12_TerminatorsEndBlocks(V) /\ C12_EdgeShape(V)
   /\ C12_Fallthrough(V) /\ C12_Labels(V) /\ (HasCfi(V) \/ C12_DataConversion(V))
-  /\ C12_Operands(V, dec) /\ C13_Binding(V) /\ C13_TempSuffix(V)
+  /\ C12_Operands(V, dec) /\ C13_Binding(V) /\ C13_TempSuffix(V) /\ C13_Assignments(V) /\ C12_Strings(V)
   /\ C12_Alignment(V)
 \* the model agrees with the function RunAll (the actions and the fold are the same machine)
 FoldAgrees == ph = "done" => fin = RunAll(par, prog)
@@ -934,7 +1043,7 @@ InvDone ==
     LET toks == Flat(prog)
         V == ModelView(toks, par, fin)
         dec == NominalDec(toks)
-    IN  /\ (InDomain(V) => Completes(V))
+    IN  /\ (InDomain(V) /\ ~OpenDefect(V) => Completes(V))
         /\ (InDomain(V) => C13_MultipleDefinitions(V) /\ C13_Undef(V) /\ C12_TargetsNoOffset(V))
         /\ (V.exc = "" => LevelA(V, dec))
         /\ (Len(prog) > 1 /\ ChunkingDomain(V) /\ InDomain(V) =>
